@@ -12,6 +12,7 @@ import (
 	"fmt"
 	"go/token"
 	"go/types"
+	"reflect"
 	"hash/crc32"
 	"math"
 	"strings"
@@ -527,6 +528,35 @@ func (m *Machine) sprintf(fr *frame, format Value, args Slice) Value {
 
 func (m *Machine) sprint(fr *frame, args Slice, ln bool) Value {
 	goArgs, ok := m.fmtArgs(fr, args)
+	if !ok && !ln {
+		// Sprint of strings only is their concatenation (no spaces are added between string operands)
+		var cat []Value
+		all := true
+		for _, a := range args {
+			itf := a.(Iface)
+			b, isStr := itf.T.Underlying().(*types.Basic)
+			if !isStr || b.Kind() != types.String {
+				all = false
+				break
+			}
+			switch sv := itf.V.(type) {
+			case string:
+				for i := 0; i < len(sv); i++ {
+					cat = append(cat, int64(sv[i]))
+				}
+			case *SymStr:
+				if sv.Opaque {
+					all = false
+				}
+				cat = append(cat, sv.B...)
+			default:
+				all = false
+			}
+		}
+		if all {
+			return &SymStr{B: cat}
+		}
+	}
 	if !ok {
 		m.fmtOpaque++
 		return &SymStr{Opaque: true}
@@ -1460,5 +1490,80 @@ func init() {
 			dst[i] = int64(d[i])
 		}
 		return nil
+	})
+}
+
+func init() {
+	// reflect.Value as a box around the interface it was made from: enough for code that only asks
+	// for the kind and takes the value back out (libs/pubsub/query operands)
+	unbox := func(v Value) Iface {
+		s, ok := v.(Struct)
+		if !ok || len(s) == 0 {
+			panic(pathEnd{kind: "unsupported", msg: "reflect.Value not produced by reflect.ValueOf"})
+		}
+		i, ok := s[0].(Iface)
+		if !ok {
+			panic(pathEnd{kind: "unsupported", msg: "reflect.Value not produced by reflect.ValueOf"})
+		}
+		return i
+	}
+	reg("reflect.ValueOf", func(m *Machine, fr *frame, a []Value) Value {
+		return Struct{a[0].(Iface), UnsafePtr{}, int64(0)}
+	})
+	reg("(reflect.Value).Interface", func(m *Machine, fr *frame, a []Value) Value { return unbox(a[0]) })
+	reg("(reflect.Value).Kind", func(m *Machine, fr *frame, a []Value) Value {
+		i := unbox(a[0])
+		if i.T == nil {
+			return int64(reflect.Invalid)
+		}
+		switch t := i.T.Underlying().(type) {
+		case *types.Basic:
+			switch t.Kind() {
+			case types.Bool:
+				return int64(reflect.Bool)
+			case types.Int:
+				return int64(reflect.Int)
+			case types.Int8:
+				return int64(reflect.Int8)
+			case types.Int16:
+				return int64(reflect.Int16)
+			case types.Int32:
+				return int64(reflect.Int32)
+			case types.Int64:
+				return int64(reflect.Int64)
+			case types.Uint:
+				return int64(reflect.Uint)
+			case types.Uint8:
+				return int64(reflect.Uint8)
+			case types.Uint16:
+				return int64(reflect.Uint16)
+			case types.Uint32:
+				return int64(reflect.Uint32)
+			case types.Uint64:
+				return int64(reflect.Uint64)
+			case types.Float32:
+				return int64(reflect.Float32)
+			case types.Float64:
+				return int64(reflect.Float64)
+			case types.String:
+				return int64(reflect.String)
+			}
+		case *types.Struct:
+			return int64(reflect.Struct)
+		case *types.Slice:
+			return int64(reflect.Slice)
+		case *types.Map:
+			return int64(reflect.Map)
+		case *types.Pointer:
+			return int64(reflect.Ptr)
+		}
+		panic(pathEnd{kind: "unsupported", msg: "reflect.Value.Kind of " + i.T.String()})
+	})
+	reg("(reflect.Value).String", func(m *Machine, fr *frame, a []Value) Value {
+		i := unbox(a[0])
+		if b, ok := i.T.Underlying().(*types.Basic); ok && b.Kind() == types.String {
+			return i.V
+		}
+		panic(pathEnd{kind: "unsupported", msg: "reflect.Value.String of a non-string"})
 	})
 }
